@@ -237,8 +237,10 @@ func TestC17_Configurations(t *testing.T) {
 			Data:   specData(map[string]any{"name": rapid.SampledFrom([]string{"Ann", "<b>x</b>", ""}).Draw(rt, "name")})}
 		switch cs.Custom {
 		case "valid":
-			cs.ErrorPage = "errors/custom"
-			files["errors/custom"] = "<h1>CUSTOM-ERROR-PAGE</h1>{{ 1 + 1 }}"
+			// the page's name is an ordinary template name: any directory depth, any last
+			// character (also ones that occur in the extension), with or without dots
+			cs.ErrorPage = rapid.SampledFrom([]string{"errors/custom", "fault", "errors/show", "e", "w", "errors/internal.t", "err.tw", "x/y/z/oops", "500", "tw"}).Draw(rt, "customName")
+			files[cs.ErrorPage] = "<h1>CUSTOM-ERROR-PAGE</h1>{{ 1 + 1 }}"
 		case "missing":
 			cs.ErrorPage = "errors/nosuch"
 		case "failing":
@@ -248,9 +250,8 @@ func TestC17_Configurations(t *testing.T) {
 		}
 		if rapid.IntRange(0, 7).Draw(rt, "defaults") == 0 {
 			// the documented defaults: no configuration at all
+			delete(files, cs.ErrorPage)
 			cs.Defaults, cs.Debug, cs.Custom, cs.ErrorPage = true, false, "none", ""
-			delete(files, "errors/custom")
-			delete(files, "errors/broken")
 		}
 		nt := fails && (cs.Debug || cs.Custom != "none" || cs.Defaults)
 		c.Case(nt, mustJSON(cs), "shape:"+note, "custom:"+cs.Custom, fmt.Sprintf("debug:%v", cs.Debug), fmt.Sprintf("defaults:%v", cs.Defaults))
